@@ -21,7 +21,15 @@ CRATES = ["aranya_crypto", "aranya_crypto_ffi"]
 def run(F, rep, tier):
     rep.explanation = __doc__
     dg = F.fn("aranya_crypto::policy::Cmd::digest")
-    th = pat.one(rep, [c for c in dg.calls if c.name == "tuple_hash"], "tuple_hash in Cmd::digest", dg)
+    ths = [c for c in dg.calls if c.name == "tuple_hash"]
+    if not ths:
+        raw = sorted({c.name for c in dg.calls if c.name in ("update", "hash", "digest", "chain_update", "finalize")})
+        rep.violation("Cmd::digest|fields-are-length-framed", "K6 field coverage",
+                      "Cmd::digest no longer hashes its fields through the length-framing tuple_hash (it calls %s): concatenating name, parent id and data without "
+                      "their lengths lets two different commands whose fields are shifted against each other share one digest, signature and command id" % (raw or "no tuple_hash"), dg.site())
+        th = None
+    else:
+        th = pat.one(rep, ths, "tuple_hash in Cmd::digest", dg)
     cmd = F.adt("aranya_crypto::policy::Cmd")
     fields = [x["name"] for x in cmd["variants"][0]["fields"]]
     if th:
